@@ -30,7 +30,7 @@ TRUSTED = [
     "modelled, tied by correspondence only: RFC 6979 byte plumbing (plus independent in-harness RFC 6979 oracles), "
     "DER reader, public entry-point glue (argument checks, dispatch to libsecp256k1, libsecp256k1's own x-coordinate "
     "test; the model's test isXCoord (Euler's criterion) is proved complete and stream-compared with btclib's Jacobi loop), "
-    "bms.sign / bms.assert_as_valid on raw EC.ops secp256k1 pairs (T8d is proved over Lawful groups and instantiated on the lawful carrier opsSub K incl. secp256k1 and a toy curve; the carrier-to-raw run equality of the two bms functions is not proved), "
+    "the magic-message digest, address decoding and base64 spelling above bms.sign / bms.assert_as_valid (T8d itself is proved about the EXECUTED runs over raw EC.ops pairs: bms_sign_then_verify_ec_raw / bms_sign_then_verify_secp256k1, through the carrier-to-raw run equalities bms_run_eq_secp256k1; the driver's environment is bmsEnvRaw (secSer 32) hash160), "
     "the bindings arm of bms and dsa.Signer (oracles bms.matrix, signer.history)",
     "points with y = 0 (2-torsion, only on even-order toy curves) are infinity for the GroupOps abstraction as for "
     "btclib's affine API: verification cases whose K is such a point, and recovery candidates lifted from a 2-torsion "
@@ -41,7 +41,9 @@ ASSUMPTIONS = [
     "generic CurveOk curve, ARBITRARY keys (ecdsa_verify_api_is_sec1_ec_cofactor_one only): cofactor one (hcof); keys "
     "built from G or in the n-torsion carrier need no assumption",
     "p = 3 (mod 4) on the E2E recovery theorems only (lift_x); sign/verify E2E theorems hold on every odd prime field",
-    "bms_sign_then_verify: p < 2n, serialization a function of the group element, complete x-coordinate screen",
+    "bms_sign_then_verify (abstract groups): p < 2n, serialization a function of the group element, complete x-coordinate "
+    "screen; bms_sign_then_verify_ec / _ec_raw: CurveOk, p = 3 (mod 4), p < 2n; bms_sign_then_verify_secp256k1 / "
+    "bms_run_eq_secp256k1: none",
     "primality of n for curves other than secp256k1 (secp256k1: proved, Btc.E2E.secp256k1_p_prime/_n_prime)",
     "unforgeability is not a theorem",
 ]
